@@ -8,7 +8,7 @@ from ..core import Fail
 PID = "C17"
 RULE = ("closed curves (polygons; mixed-degree curves with degree 1..3 segments) described by from_vertices / "
         "from_ctrlpoints / from_segments (and from_full_curve for polygons given as a degree-1 pynurbs curve): == between "
-        "all descriptions, same vertices (each control point once, in order), segments, box, signed length and area; box "
+        "all descriptions, same vertices (each control point once, in order), segments, box, signed length and area; box asked / move or scale in place / box asked again; box "
         "encloses sampled points; sign of float(curve) = orientation; malformed stream: a gap at each junction "
         "(closing one included) of 0.5e-9 (accepted) / 2e-9 and larger (rejected), non-curve arguments; "
         "non-trivial = at least 3 segments; distinct = SHA-1")
@@ -167,6 +167,32 @@ def check(ctx, case):
         wantm = [[(p[0] + 3, p[1] - 2) for p in sg] for sg in ref["segments"]]
         if not U.jordan_same(moved, wantm, exact, rotate=False):
             fails.append(Fail(kind="O", what="move() does not move every control point (vertex enumeration)", impl=str(moved)[:300]))
+    # the box of one and the same object, asked, transformed in place, asked again: it must enclose the curve where
+    # it is NOW (and the constructors must still agree with it)
+    Jq = I.outcome(lambda: builds["ctrl"]())
+    if Jq[0] == "ok":
+        Jo = Jq[1]
+        Jo.box()
+        tname, act, f = [("move", lambda: Jo.move((F(21, 2), F(5))), lambda p: (p[0] + F(21, 2), p[1] + 5)),
+                         ("scale", lambda: Jo.scale(F(3), F(1, 2)), lambda p: (p[0] * 3, p[1] / 2))][len(jx) % 2]
+        r = I.outcome(act)
+        if r[0] == "ok":
+            nb = Jo.box()
+            nbox = (I.num(nb.lowpt[0]), I.num(nb.lowpt[1]), I.num(nb.toppt[0]), I.num(nb.toppt[1]))
+            for sg in ref["segments"]:
+                for i in range(5):
+                    q = f(O.bez(sg, F(i, 4)))
+                    if not (nbox[0] - F(1, 10 ** 9) <= q[0] <= nbox[2] + F(1, 10 ** 9) and nbox[1] - F(1, 10 ** 9) <= q[1] <= nbox[3] + F(1, 10 ** 9)):
+                        fails.append(Fail(kind="O", what="box() asked, %s(), box() asked again: the box does not enclose the curve any more" % tname, p=q, impl=nbox))
+                        break
+                else:
+                    continue
+                break
+            # (== on curved segments with Fraction data takes minutes in the library: polygons only)
+            straight = all(len(sg) == 2 for sg in ref["segments"])
+            fresh = I.outcome(lambda: bool(Jo == I.JordanCurve.from_ctrlpoints([[f(p) for p in sg] for sg in ref["segments"]]))) if straight else ("ok", True)
+            if fresh != ("ok", True) and exact:
+                fails.append(Fail(kind="O", what="after box(), %s() the curve is not == to the curve constructed at its new place" % tname, impl=fresh))
     # model
     if exact:
         rm = ctx.model.from_ctrlpoints(jd)
